@@ -28,7 +28,7 @@ type Case struct {
 	Query   string `json:"raw_query"`
 	Headers string `json:"headers"` // none|single|repeated|lower
 	Cookies string `json:"cookies"`
-	Body    string `json:"body"` // none|json|form|badjson
+	Body    string `json:"body"` // none|json|form|badjson|json-chunked|form-chunked
 }
 
 var echo = map[string]string{
@@ -115,7 +115,7 @@ var (
 	queries  = []string{"", "q=1&q=2", "q=a%20b"}
 	hdrKinds = []string{"none", "single", "repeated", "lower"}
 	cookies  = []string{"", "c=1", "c=1; d=2", "c=1; d=2; c=3"}
-	bodies   = []string{"none", "json", "form", "badjson"}
+	bodies   = []string{"none", "json", "form", "badjson", "json-chunked", "form-chunked"}
 )
 
 func (cs *Case) req() *hx.Req {
@@ -134,7 +134,7 @@ func (cs *Case) req() *hx.Req {
 		r.Header = append(r.Header, [2]string{"Cookie", cs.Cookies})
 	}
 
-	switch cs.Body {
+	switch strings.TrimSuffix(cs.Body, "-chunked") {
 	case "json":
 		r.Body = `{"a":{"b":[1,2]}}`
 		r.Header = append(r.Header, [2]string{"Content-Type", "application/json"})
@@ -145,6 +145,9 @@ func (cs *Case) req() *hx.Req {
 		r.Body = `{"a":`
 		r.Header = append(r.Header, [2]string{"Content-Type", "application/json"})
 	}
+
+	// a body of unknown length for the HTTP entry points (chunked transfer); Envoy hands over the buffered body either way
+	r.Chunked = strings.HasSuffix(cs.Body, "-chunked")
 
 	return r
 }
@@ -386,7 +389,7 @@ func Check() *engine.Check {
 		ID:    "C13",
 		Level: "exploration",
 		Rule: "full product of logical requests (method x scheme x 6 rules x 4 path ids incl. percent-encoded, encoded slash and UTF-8 x 3 " +
-			"queries x 4 header variants incl. repeated and lower-case x 3 cookie variants x 4 bodies) sent through the three assembled real services " +
+			"queries x 4 header variants incl. repeated and lower-case x 3 cookie variants x 6 bodies incl. chunked transfer) sent through the three assembled real services " +
 			"(decision and proxy handler chains via ServeHTTP on parsed raw requests, Envoy gRPC server over an in-memory connection, recording upstream) " +
 			"loaded with one rule set of real mechanisms (anonymous authenticator, CEL authorizers on captures/method/path, conditional finalizer, " +
 			"header finalizer echoing every request-view component, two finalizers adding the same header, cookie finalizer); oracle: pairwise equality " +
